@@ -474,18 +474,29 @@ type drv struct {
 	miner   *fakeMiner
 }
 
-// fakeMiner: the PoC miner as the handlers see it (started or not)
+// fakeMiner: the PoC miner as the handlers see it (started or not).  Its Start follows OnStart of
+// poc/engine/pocminer/miner/miner.go: with payout addresses configured, the keeper is started if it is not, and the
+// miner is started only if that succeeded; its Stop leaves the keeper alone.
 type fakeMiner struct {
 	mu      sync.Mutex
 	started bool
 	calls   []string
+	sk      *capacity.SpaceKeeper
 }
 
 func (m *fakeMiner) Start() error {
 	m.mu.Lock()
 	defer m.mu.Unlock()
-	m.started = true
 	m.calls = append(m.calls, "Start")
+	if m.started {
+		return nil
+	}
+	if !m.sk.Started() {
+		if err := m.sk.Start(); err != nil {
+			return err
+		}
+	}
+	m.started = true
 	return nil
 }
 func (m *fakeMiner) Stop() error {
@@ -822,7 +833,7 @@ func run(sc vh.Scenario, dir string, rec *vh.Rec) {
 		rec.Conc[w] = s[:16] + "..." + hex.EncodeToString([]byte{byte(len(s))})
 	}
 	if b, _ := sc.Opt["api"].(bool); b {
-		d.miner = &fakeMiner{}
+		d.miner = &fakeMiner{sk: sk}
 		wal.locked = true // a node starts with a locked wallet
 		d.wal = wal
 		d.srv = api.VerifServer(d.miner, wal, mining.NewConfigurableSpaceKeeperV1(sk))
